@@ -8,7 +8,7 @@ from ..cfg import NORMAL, Node, handler_classes
 from ..core import Ctx
 from ..flow import ALL, find_path, names_in
 from ..model import AnalysisError, FunctionInfo, dotted, norm_text
-from .common import (str_consts, owner_tops, nonnull_inline_return_edges, cleanup_in_reraising_handler, edge_target, guarded_names, handler_exits, handler_key, handler_nodes, in_handler, kwarg,
+from .common import (facts_at, str_consts, owner_tops, nonnull_inline_return_edges, cleanup_in_reraising_handler, edge_target, guarded_names, handler_exits, handler_key, handler_nodes, in_handler, kwarg,
                      path_arg, reachable_from)
 
 EXPLANATION = (
@@ -287,9 +287,15 @@ def r4(ctx: Ctx) -> None:
                 verified_parses.append(p)
         ctx.ob("C14.R4", f, "a parse of the verified bytes exists", verified_parses[0] if verified_parses else None,
                bool(verified_parses), "the verification branch parses the bytes it read")
+        def _verified(pol: str, e: ast.AST) -> bool:
+            return pol == "true" and isinstance(e, ast.Call) and (dotted(e.func) or "").endswith("verify_checksum")
+
+        mismatch_raises = [n for n in g.nodes if n.kind == "raise" and n.raised == "CorruptDataError" and any(
+            pol == "false" and isinstance(e, ast.Call) and (dotted(e.func) or "").endswith("verify_checksum")
+            for pol, e, _a in facts_at(ctx, f, n))]
         for p in verified_parses:
-            okd = False
-            for b in vb:
+            okd = bool(mismatch_raises) and any(_verified(pol, e) for pol, e, _a in facts_at(ctx, f, p))
+            for b in vb if not okd else []:
                 # `if not verify_checksum(...)`: cond() swapped edges: branch 'false' -> raise side
                 bad = edge_target(g, b, "false")
                 good = edge_target(g, b, "true")
